@@ -392,6 +392,29 @@ func c07Bitcoin(c *Ctx, prog *load.Program) {
 	c.R.Decide(ok, "C07-4", "VerifyASN1", pos, "VerifyASN1 = BIP-66 envelope && PublicKey.Verify(digest, sig without its last byte, {SHA256, ASN.1, RejectMalleable}) ("+detail+")", "VerifyASN1 differs from the specification: "+detail)
 	okc, _ := Equivalent(fOr(parts...), want(5, 0, false))
 	c.R.ControlResult("C07-4", "malleable-allowed", "a specification with RejectMalleable=false must not be equivalent", !okc)
+	// every index / slice bound inside VerifyASN1 itself is entailed by the checks that dominate it (an empty signature
+	// must be refused before its last byte is stripped)
+	// (the BIP-66 predicate is replaced by its specification here; rule C12-3 proves that the predicate implies
+	// 9 <= len(sig) <= 73, which is what the envelope contributes to the bounds)
+	bip66Facts := func(g []absint.Lit) []absint.Lit {
+		out := append([]absint.Lit(nil), g...)
+		for _, l := range g {
+			if l.T.Op == "bip66_ok" && l.Val && len(l.T.Args) == 1 {
+				ln := absint.Lt(sym.App(sym.Int, "len", l.T.Args[0]), sym.ConstI(9))
+				if n, ok := sym.BytesLen(l.T.Args[0]); ok {
+					ln = absint.Lt(sym.ConstI(int64(n)), sym.ConstI(9))
+				}
+				out = append(out, absint.Lit{T: absint.Lt(symLen("sig"), sym.ConstI(9)), Val: false}, absint.Lit{T: ln, Val: false},
+					absint.Lit{T: absint.Lt(sym.ConstI(73), symLen("sig")), Val: false})
+			}
+		}
+		return out
+	}
+	if _, fpos, fmsg := checkBoundsWith(r, bip66Facts); fmsg != "" {
+		c.R.Fail("C07-4", "VerifyASN1/bounds", fpos, fmsg)
+	} else {
+		c.R.OK("C07-4", "VerifyASN1/bounds", pos, "every slice bound in VerifyASN1 follows from the preceding checks")
+	}
 	// a panic inside VerifyASN1 itself (e.g. slicing an empty signature) must be unreachable
 	for _, p := range r.Ex.Panics {
 		c.R.Fail("C07-4", "VerifyASN1/no-panic", PosStr(prog, p.Pos), fmt.Sprintf("a panic (%s) is reachable when {%s}", p.Msg, GuardString(p.Guard)))
